@@ -103,7 +103,7 @@ func judge(r *hx.Run, f *feed, kind, damage string, damaged []byte, haveSpool bo
 		if haveSpool && f.t.valid != nil && f.t.valid(damaged) {
 			r.Count(kind + ":" + f.t.name + ":" + cl + ":still-valid-feed")
 			if cl == clSubset {
-				r.Fail("still-valid-"+f.t.name, witness(f, damage, cl, got))
+				r.Fail(f.t.findingClass(), witness(f, damage, cl, got))
 			}
 			return cl
 		}
@@ -157,6 +157,9 @@ func Run(cfg hx.Config) error {
 			}
 			sweepFeed(r, f, rnd.Fork(), cfg)
 		}
+	}
+	if !r.Stop() {
+		runPipelines(r, rnd, cfg)
 	}
 	return nil
 }
